@@ -128,6 +128,7 @@ def pySlice (x : PVal) (lo hi : Option Int) : PyM PVal :=
   | .html s => pure (.html (sliceList s lo hi))
   | .list xs => pure (.list (sliceList xs lo hi))
   | .tuple xs => pure (.tuple (sliceList xs lo hi))
+  | .dict _ => throw .keyError        -- CPython 3.12: a slice is hashable, so `d[a:b]` is a failed key lookup
   | _ => throw .typeError
 
 /-- `sep.join(iterable of str)` -/
